@@ -356,7 +356,20 @@ func initLibExternals() {
 		"(*github.com/hashicorp/memberlist.TransmitLimitedQueue).QueueBroadcast": func(fr *frame, a []value) value {
 			k := bqKey{ptrArg(a[0])}
 			l, _ := fr.i.side[k].([]value)
-			fr.i.side[k] = append(l, a[1])
+			nb := a[1].(iface)
+			// as memberlist does: a new broadcast evicts every queued one it invalidates
+			inv := fr.i.findMethod(nb.t, "Invalidates")
+			kept := l[:0:0]
+			for _, old := range l {
+				if inv != nil && fr.i.cond(call(fr.i, fr, 0, inv, []value{nb.v, old})) {
+					if fin := fr.i.findMethod(old.(iface).t, "Finished"); fin != nil {
+						call(fr.i, fr, 0, fin, []value{old.(iface).v})
+					}
+					continue
+				}
+				kept = append(kept, old)
+			}
+			fr.i.side[k] = append(kept, a[1])
 			return nil
 		},
 		"(*github.com/hashicorp/memberlist.TransmitLimitedQueue).NumQueued": func(fr *frame, a []value) value {
